@@ -146,10 +146,11 @@ func (d *disconnectHandler) handleDisconnect() {
 	d.mu.Lock()
 	defer d.mu.Unlock()
 
-	// Only handle if we're the leader
-	if !d.election.isLeader.Load() {
-		return
-	}
+	// The grace period runs from the latest disconnect notification, whoever leads at
+	// that moment: the expiry handler decides by the leadership and the connection
+	// status it finds then. (Ignoring a notification that arrives between two terms
+	// left the timer of an earlier notification running, which then demoted the new
+	// term before its grace period had elapsed.)
 
 	// Calculate grace period
 	gracePeriod := d.election.cfg.DisconnectGracePeriod
